@@ -143,6 +143,9 @@ func propC19(r *Run) {
 		}
 		clockMenu := []time.Duration{time.Nanosecond, time.Millisecond, time.Second, 2500 * time.Millisecond, 5*time.Second - time.Nanosecond, 5 * time.Second, 5*time.Second + time.Nanosecond, 60 * time.Second, 61 * time.Second}
 		o := loopOpts{maxSteps: 600, wClient: 3, wLoop: 4, wClock: 3, wExtra: 1, clockMenu: clockMenu, extra: extra}
+		if r.Choose("fs-yields", 6) == 0 {
+			w.fsYields() // the timer, the hook runner and a reload can land between two file operations of an update
+		}
 		w.runLoop(o)
 		if wedge := w.drain(nil); wedge != "" {
 			r.Fail("hooks/call-delayed-by-hook", "a management call did not return: %s", wedge)
